@@ -130,6 +130,16 @@ def build_state(case):
         at = now + r.get("at", 1)
         pl = Placement.create_task_placement(task=t, placement_time=T(at), worker_pool_id=p.id, worker_id=w.id if r.get("with_worker_id", True) else None, execution_strategy=s)
         t.schedule(T(now), pl)
+    # plans that were withdrawn again: scheduled with some strategy, then unscheduled (back to RELEASED / VIRTUAL)
+    for r in case.get("retracted", []):
+        t = tasks.get((r["graph"], r["job"]))
+        if t is None or t.state not in (TaskState.RELEASED, TaskState.VIRTUAL):
+            continue
+        s = strategy_of(t, r["strategy"])
+        p = list(worker_pools.worker_pools)[0]
+        t.schedule(T(now), Placement.create_task_placement(task=t, placement_time=T(now + 1), worker_pool_id=p.id, execution_strategy=s))
+        t.unschedule(T(now))
+        notes.setdefault("retracted", []).append((r["graph"], r["job"]))
     return {"flags": flags, "worker_pools": worker_pools, "info": info, "workload": workload, "tasks": tasks, "now": T(now), "notes": notes,
             "profiles": profiles}
 
